@@ -84,7 +84,7 @@ def gen_op(rng, name):
     if name == "sstop":
         return "sstop %d" % t(rng, 2)
     if name == "sappend":
-        return "sappend %d %d" % (rng.choice([2, 2, 2, 2, 1, 0]), t(rng, 3, 0.85))
+        return "sappend %d %d" % (rng.choice([2, 2, 2, 3, 3, 4, 1, 0]), t(rng, 3, 0.8))
     if name == "sclose":
         return "sclose %d %d" % (t(rng, 2), rng.choice(STATUS))
     return name   # cstate sstate sget smeta sreserve
@@ -139,7 +139,7 @@ def gen_structured(rng, maxlen):
             if x < 0.6:
                 ops.append(gen_op(rng, rng.choice(["cframe", "cframe", "ctrig"]) if cam else "sappend"))
                 f = ops[-1].split()
-                if f[0] == "cframe" and f[1] != "0" or f[0] == "sappend" and f[1] == "2" and f[2] != "3":
+                if f[0] == "cframe" and f[1] != "0" or f[0] == "sappend" and f[1] in ("2", "3", "4") and f[2] != "3":
                     phase = 1
             elif x < 0.8:
                 ops.append(gen_op(rng, "cstop" if cam else "sstop"))
@@ -169,7 +169,7 @@ CAM_ALPHA_Q = ["copen %s 0" % OPEN_OK, "copen 0 1 1 0 1 0 1 127 0", "cset 0 0 0"
                "cstop 0", "cstop 2", "cframe 0 0", "cframe 1 0", "ctrig 0", "cclose 0"]
 CAM_ALPHA_T = CAM_ALPHA_Q + ["copen 0 1 1 0 1 1 1 255 0", "copen 0 1 1 0 1 0 3 255 0", "cset 0 2 0", "cstop 1", "cframe 2 1", "cstart -1"]
 STO_ALPHA_Q = ["sopen %s 2 0" % OPEN_OK, "sopen 0 1 1 0 1 0 3 223 2 0", "sset 0 2", "sset 0 3", "sstart 3", "sstart 1",
-               "sstop 2", "sstop 3", "sappend 2 3", "sappend 2 1", "sclose 2 0", "svalidate %s 0 2 2 0" % OPEN_OK]
+               "sstop 2", "sstop 3", "sappend 2 3", "sappend 2 1", "sappend 3 2", "sclose 2 0", "svalidate %s 0 2 2 0" % OPEN_OK]
 STO_ALPHA_T = STO_ALPHA_Q + ["sopen 0 1 1 0 1 1 1 255 2 0", "sopen 0 1 1 0 1 0 3 191 2 0", "sset 0 4", "sstop 0", "sappend 1 3",
                              "svalidate %s 1 3 4 0" % OPEN_OK]
 
